@@ -485,7 +485,15 @@ func translatorValidation(p *Prop, l *gosym.Loaded, hs *harnessSet, cfgs []gosym
 				if err := gosym.WriteReplay(dir, spec, nil, c.Params); err != nil {
 					return
 				}
-				out := gosym.RunReplay(dir, []string{fmt.Sprintf("VERIF_RANDOM=%d", seed()*1000+int64(j)+1)})
+				// a random vector may fall outside the harness's assumptions: draw again (the
+				// count of validated vectors then does not depend on the seed)
+				var out *gosym.ReplayOutcome
+				for attempt := int64(0); attempt < 10; attempt++ {
+					out = gosym.RunReplay(dir, []string{fmt.Sprintf("VERIF_RANDOM=%d", seed()*1000+int64(j)+1+attempt*101)})
+					if out.BuildError || !(out.AssumeFail || out.TimedOut || (!out.Ended && out.Panic == "")) {
+						break
+					}
+				}
 				if out.BuildError {
 					mu.Lock()
 					inconcl = append(inconcl, c.Name+": native harness build failed: "+firstLines(out.Output, 6))
